@@ -35,6 +35,11 @@ CHECKS["C03"] = dict(cat=MC, engine="E2 xseq (bounded-exhaustive destination gri
    text="Every destination of the grid is expressed in each of 6 inbound protocols and decoded by the real decoder (what the rules see must be what the client asked, remaining bytes must be exactly the payload); every TargetAddress reachable that way goes through each of 5 real outbound encoders; the emitted bytes must be refused, or parse - by a strict reference decoder and by the repository's own decoder - to exactly the same destination with nothing spilled. Pairs are covered by composition through the TargetAddress value.",
    note="Trusts: the reference decoders (RFC 1928 / SOCKS4a layout, HTTP request-line grammar, RPFM layout from frames.rs); IP-literal host strings compare as addresses. Not covered: DNS resolution, hosts longer than 1000 bytes.",
    ref="DESIGN.md §3 C03")
+CHECKS["C02"] = dict(cat=MC, engine="E2 xseq (all rule lists x request grid through the real set_rules + process_request)",
+   technique="exhaustive enumeration of rule lists (length<=3, thorough 4, over 12 rule shapes) x request grid x upstream feature sets on the real process_request with recorder connectors vs first-match reference; CIDR prefix/boundary grid vs bit-mask reference",
+   text="Every rule list up to length 3 (thorough: 4) over {no filter, two request-dependent filters, a filter that fails to evaluate} x {A,B,deny}, for 12 (thorough 96) requests and two upstream feature sets, is installed with the real set_rules and decided by the real process_request; exactly the predicted recorder is contacted once (or none), the recorded connector matches, refusal runs on_error only and no payload byte reaches an origin. All request attributes and cidr_match (every prefix length, network boundaries, both families) are compared with the connection's values / bit-mask containment.",
+   note="Trusts: the 6-line reference and recorder connectors. Not covered: lists longer than 4; filters beyond the 4 classes (C08); real connectors' feature sets (C17 covers the balancer).",
+   ref="DESIGN.md §3 C02")
 NOT_YET = "check not built yet in this revision (see DESIGN.md §3 for the planned model-checking design)"
 def main():
     checks = []
